@@ -378,6 +378,8 @@ def duplex_base(u, F, IMPL, name, cfgname, cfgty):
               a_ };''' % (sp(cond), sp(expr), cond, expr)
     d.rewrite_re('R6', r'core::array::from_fn\(\|i\|\s*\{?\s*if\s+([^{}]+?)\s*\{\s*Some\(([^{}]+?)\)\s*\}\s*else\s*\{\s*None\s*\}\s*\}?\s*\);', _from_fn, min_count=1)
     d.rewrite('R6', 'self.state = outputs.to_vec();', 'self.state = outputs.as_slice().to_vec();')
+    # `flag |= E;` on a bool (the verifier has no bitwise OR on bools): E is evaluated, then OR-ed in (R6)
+    d.rewrite_re('R6', r'(self\.\w+)\s*\|=\s*([^;]+);', r'{ let or_ = \2; \1 = \1 || or_; }', min_count=0)
     d.requires('inv', f'''old(self).initialized && old(self).state@.len() == WIDTH && perm_ops_enabled() && {cfgname}.dd == 1 && WIDTH == 16 && RATE == 8 && absorb_len <= RATE
             && (forall|i: int| 0 <= i < RATE ==> old(circuit).bound(#[trigger] old(self).state@[i])) && (old(self).duplexed_once ==> old(circuit).chain@)''')
     d.ensures('rate_pinned_capacity_chained', '(forall|i: int| 0 <= i < 8 ==> final(circuit).bound(#[trigger] final(self).state@[i])) && final(circuit).chain@ && final(self).duplexed_once')
